@@ -116,7 +116,7 @@ var (
 )
 
 var blockKeywords = map[string]bool{"func": true, "extern": true, "functype": true, "trusted": true, "loop": true, "ghost": true, "spec": true, "impl": true}
-var clauseKeywords = map[string]bool{"requires": true, "ensures": true, "panics": true, "modifies": true, "invariant": true, "decreases": true, "expect": true, "vars": true, "pure": true, "ghostset": true}
+var clauseKeywords = map[string]bool{"requires": true, "ensures": true, "defines": true, "panics": true, "modifies": true, "invariant": true, "decreases": true, "expect": true, "vars": true, "pure": true, "ghostset": true}
 
 func splitList(s string) []string {
 	var out []string
@@ -328,7 +328,7 @@ func (ct *ContractTable) parseLines(lines []rawLine, pkg string) error {
 				ct.Impls = append(ct.Impls, ImplDecl{Iface: qualifyTypeName(strings.TrimSpace(parts[0]), pkg), Conc: qualifyTypeName(c, pkg)})
 			}
 			curC, curL = nil, nil
-		case "requires", "ensures", "panics", "invariant", "decreases":
+		case "requires", "ensures", "panics", "invariant", "decreases", "defines":
 			cl := &Clause{Kind: kw, File: l.file, Line: l.line}
 			if m := reTags.FindStringSubmatch(rest); m != nil {
 				cl.Tags = splitList(m[1])
@@ -355,6 +355,9 @@ func (ct *ContractTable) parseLines(lines []rawLine, pkg string) error {
 			case curC != nil && kw == "requires":
 				curC.Requires = append(curC.Requires, cl)
 			case curC != nil && kw == "ensures":
+				curC.Ensures = append(curC.Ensures, cl)
+			case curC != nil && kw == "defines":
+				cl.Kind = "defines"
 				curC.Ensures = append(curC.Ensures, cl)
 			case curC != nil && kw == "panics":
 				curC.Panics = append(curC.Panics, cl)
